@@ -35,6 +35,7 @@ def to_np(P, dtype="float"):
     return np.array(P, dtype=(np.int32 if dtype == "int32" else np.int64))
 
 def run_gs(case, deadline=10.0):
+    case = materialise(case)
     from socialchoicekit.deterministic_matching import GaleShapley
     from socialchoicekit.profile_utils import StrictProfile
     R = lay(to_np(case["R"], case.get("dtype", "float")), case.get("layout")); H = lay(to_np(case["H"], case.get("dtype", "float")), case.get("layout"))
@@ -48,7 +49,7 @@ def run_gs(case, deadline=10.0):
             except Exception:  # noqa
                 pass
         return GaleShapley(resident_oriented=case["ro"], zero_indexed=case["zi"]).scf(StrictProfile.of(R), StrictProfile.of(H), c)
-    r = supervised(go, deadline)
+    r = supervised(go, case.get("deadline", deadline))
     if r[0] != "ok":
         return dict(status=r[0], err=(r[1] if len(r) > 1 else ""), msg=(r[2] if len(r) > 2 else ""))
     try:
@@ -60,6 +61,7 @@ def run_gs(case, deadline=10.0):
 
 def check_stable(case, pairs0):
     """pairs0: 0-based (resident, hospital). returns None or (kind, msg)"""
+    case = materialise(case)
     R, H, c = case["R"], case["H"], case["c"]
     n, m = len(R), len(H)
     for r, h in pairs0:
@@ -68,7 +70,8 @@ def check_stable(case, pairs0):
     res = [r for r, _ in pairs0]
     if len(set(res)) != len(res):
         return ("resident_twice", "a resident appears twice")
-    held = {h: [r for r, hh in pairs0 if hh == h] for h in range(m)}
+    held = {h: [] for h in range(m)}
+    for r, hh in pairs0: held[hh].append(r)
     for h in range(m):
         if len(held[h]) > c[h]:
             return ("over_capacity", "hospital %d holds %d > capacity %d" % (h, len(held[h]), c[h]))
@@ -76,12 +79,13 @@ def check_stable(case, pairs0):
         if R[r][h] is None or H[h][r] is None:
             return ("unacceptable_pair", "matched pair (%d,%d) is not mutually acceptable" % (r, h))
     of = {r: h for r, h in pairs0}
+    worst = {h: max([H[h][r2] for r2 in held[h]] or [0]) for h in range(m)}      # the hospital prefers r to someone it holds  <=>  r ranks before its worst held resident
     for r in range(n):
         for h in range(m):
             if R[r][h] is None or H[h][r] is None or of.get(r) == h:
                 continue
             rwants = (r not in of) or R[r][h] < R[r][of[r]]
-            hwants = len(held[h]) < c[h] or any(H[h][r] < H[h][r2] for r2 in held[h])
+            hwants = len(held[h]) < c[h] or H[h][r] < worst[h]
             if rwants and hwants:
                 return ("blocking_pair", "(%d,%d) blocks the matching" % (r, h))
     return None
@@ -103,8 +107,23 @@ def cprof(P):
 
 def coq_case(case, pairs0):
     n, m = len(case["R"]), len(case["H"])
-    return ct(cprof(case["R"]), cprof(case["H"]), cl([cn(x) for x in case["c"]]), cb(case["ro"]), cn(n * m + 2),
+    # a capacity above the number of residents can never bind: the model is given min(c, n + 1) (unary numerals), the implementation the caller's value
+    return ct(cprof(case["R"]), cprof(case["H"]), cl([cn(min(x, n + 1)) for x in case["c"]]), cb(case["ro"]), cn(n * m + 2),
               cl([ct(cn(r), cn(h)) for r, h in pairs0]))
+
+def giant_cases():
+    """one preference list with more than a million entries (one of them unacceptable): anything that stands in for 'worse than every real rank'
+    with a fixed large number shows here. Decided by the direct oracle only (thorough tier and the search after a broken obligation)."""
+    n = 1000003
+    for ro in (True, False):
+        yield dict(entry="GaleShapley.scf", family="giant_list", giant=n, c=[n], ro=ro, zi=True, dtype="float", deadline=300.0)
+
+def materialise(case):
+    """the giant instance is stored as its recipe: n residents who all rank the single hospital first; the hospital finds resident 0 unacceptable and ranks the others 1..n-1"""
+    if case.get("giant") and "R" not in case:
+        n = case["giant"]
+        return dict(case, R=[[1]] * n, H=[[None] + list(range(1, n))])
+    return case
 
 def gen_cases(rng, tier, exh=True):
     k = 0
@@ -165,6 +184,10 @@ def gen_cases(rng, tier, exh=True):
             dt = rng.choice(["int64", "int32"])
         # capacities as the caller may store them: signed / unsigned integer arrays of any width, floats, a plain list
         cenc = ["int64", "int32", "uint8", "uint16", "uint32", "uint64", "int8", "float", "list"][i % 9]
+        if i % 7 == 3 and cenc in ("int64", "uint64", "float", "list", "uint32", "int32"):      # practically unlimited capacities, as large as the encoding allows
+            top = {"int64": 2 ** 63 - 1, "uint64": 2 ** 63, "float": 1e300, "list": 2 ** 63 - 1, "uint32": 2 ** 32 - 1, "int32": 2 ** 31 - 1}[cenc]
+            c = [rng.choice([top, top, top // 2 + 1 if cenc != "float" else 1e18, 1, 2]) for _ in range(m)]
+            if cenc == "float": c = [int(x) if x < 1e17 else x for x in c]
         for ro in (True, False):
             d = dict(entry="GaleShapley.scf", family="random", R=R, H=H, c=c, ro=ro, zi=bool(i % 2), dtype=dt, cdtype=cenc)
             if i % 4 == 1 or (cenc == "int64" and i % 2):
@@ -172,6 +195,7 @@ def gen_cases(rng, tier, exh=True):
             yield d
 
 def shrink_gs(case):
+    if case.get("giant"): return
     R, H, c = case["R"], case["H"], case["c"]
     n, m = len(R), len(H)
     def renum(row):
